@@ -8,7 +8,16 @@ pub proof fn lemma_nz_known_all(s: Seq<(&Tid, &Term<Sub>)>, subs: Map<Tid, Term<
         nz_iter_of(s, subs),
     ensures
         forall |n: int, t: Tid| n == s.len() ==> (#[trigger] nz_known_n(s, n, -1, t) <==> nz_is_sub(subs, t) || nz_is_blk(subs, t)),
+        forall |n: int, m: int, t: Tid| n + 1 == s.len() && m == s[n].1.term.blocks@.len() ==> (#[trigger] nz_known_n(s, n, m, t) <==> nz_is_sub(subs, t) || nz_is_blk(subs, t)),
 {
+    assert forall |n: int, m: int, t: Tid| n + 1 == s.len() && m == s[n].1.term.blocks@.len() implies (#[trigger] nz_known_n(s, n, m, t) <==> nz_known_n(s, n + 1, -1, t)) by {
+        if nz_known_n(s, n, m, t) {
+            if exists |i: int| 0 <= n < s.len() && 0 <= i < m && i < s[n].1.term.blocks@.len() && (#[trigger] s[n].1.term.blocks@[i]).tid == t {
+                let i = choose |i: int| 0 <= n < s.len() && 0 <= i < m && i < s[n].1.term.blocks@.len() && (#[trigger] s[n].1.term.blocks@[i]).tid == t;
+                assert(0 <= n < n + 1 && 0 <= i < s[n].1.term.blocks@.len() && s[n].1.term.blocks@[i].tid == t);
+            }
+        }
+    }
     assert forall |n: int, t: Tid| n == s.len() implies (#[trigger] nz_known_n(s, n, -1, t) <==> nz_is_sub(subs, t) || nz_is_blk(subs, t)) by {
         if nz_known_n(s, s.len() as int, -1, t) {
             if exists |j: int| 0 <= j < s.len() && (#[trigger] s[j]).1.tid == t {
@@ -28,6 +37,28 @@ pub proof fn lemma_nz_known_all(s: Seq<(&Tid, &Term<Sub>)>, subs: Map<Tid, Term<
             let (k, i) = choose |k: Tid, i: int| #[trigger] nz_blk_at(subs, k, i, t);
             let j = choose |j: int| 0 <= j < s.len() && *(#[trigger] s[j]).0 == k;
             assert(s[j].1.term.blocks@[i].tid == t);
+        }
+    }
+}
+
+/// a complete iteration lists every key once
+pub proof fn lemma_nz_keys_done<V>(s: Seq<(&Tid, &V)>, m: Map<Tid, V>)
+    requires
+        nz_iter_of(s, m),
+    ensures
+        forall |ks: Seq<Tid>| ks.len() == s.len() && (forall |j: int| 0 <= j < ks.len() ==> #[trigger] ks[j] == *s[j].0) ==> #[trigger] nz_keys_of(ks, m),
+{
+    assert forall |ks: Seq<Tid>| ks.len() == s.len() && (forall |j: int| 0 <= j < ks.len() ==> #[trigger] ks[j] == *s[j].0) implies #[trigger] nz_keys_of(ks, m) by {
+        assert forall |i: int, j: int| 0 <= i < ks.len() && 0 <= j < ks.len() && i != j implies ks[i] != ks[j] by {
+            if ks[i] == ks[j] {
+                assert(*s[i].0 == *s[j].0);
+                assert(m[*s[i].0] == *s[i].1 && m[*s[j].0] == *s[j].1);
+                assert(s[i] == s[j]);
+            }
+        }
+        assert forall |k: Tid| m.contains_key(k) implies exists |i: int| 0 <= i < ks.len() && #[trigger] ks[i] == k by {
+            let i = choose |i: int| 0 <= i < s.len() && *(#[trigger] s[i]).0 == k;
+            assert(ks[i] == k);
         }
     }
 }
